@@ -239,7 +239,7 @@ pub fn build_state(rng: &mut Rng, store: &mut Store, uni: &Universe, other: &Uni
         rng.shuffle(&mut es);
     }
     for e in es {
-        if rng.chance(1, 4) {
+        if rng.chance(1, 4) && e.timestamp() != 0 {
             let a = uni.authors.iter().find(|a| a.id() == e.author()).unwrap();
             offer_local(store, uni.ns.id(), a, &e);
         } else {
